@@ -13,7 +13,17 @@ states are compared.  Section F starts from what an earlier crashed call left
 behind (crash at every primitive, or a planted temporary of arbitrary content)
 and then runs complete calls: each must install exactly (lines it found minus
 own marked lines) + own marked lines (oracle on the real code alone; the model
-runs the same histories through the driver command ST)."""
+runs the same histories through the driver command ST).  Section H runs the REAL
+firewall.main - one thread per helper, its control channel fed line by line -
+over update histories in which names repeat with the same or another address,
+interleaved with other names and with other helpers' HOST lines, and the same
+histories through rewrite_etc_hosts directly; oracle: one marked line per
+distinct name at the address of its LAST update (c14_session_last_address), the
+map main() hands over is compared with the model's hm_after.  Hosts files of
+ARBITRARY bytes (not valid UTF-8, NUL, CR, very long lines, no final newline) go
+through sections A, E and H: every line that does not carry the session's
+marker is byte-identical and in order, or nothing at all was touched
+(c14_rewrite_any_bytes; the model's utf8_ok is compared with CPython's decoder)."""
 import builtins
 import errno
 import os
@@ -29,24 +39,40 @@ RULE = ("contents x host maps x ports: hosts files built from comments, ordinary
         "Histories of 2-4 instances; every crash point of a call (child process, os._exit at the k-th primitive); a call crashed at every "
         "primitive or a pre-existing temporary of arbitrary content (shorter / as long / longer than the next version, other owner and mode), "
         "THEN complete rewrites/restores by the same or another port, optionally after an edit by the administrator; every merge of two "
-        "instances' shared-path primitives (threads gated at each primitive).  A case is non-trivial when the file or the map is "
+        "instances' shared-path primitives (threads gated at each primitive).  Update histories of 1-3 helpers through the real "
+        "firewall.main control channel (and through rewrite_etc_hosts directly): names repeated with the same address, another "
+        "address, the address of another host, back to an earlier address, other keys differing in case / by a prefix, sessions "
+        "following one another on a port, IPv6/IPv4 port pairs.  Foreign contents of arbitrary bytes: Latin-1 text, lone / cut-off / "
+        "overlong / surrogate / out-of-range UTF-8 sequences, UTF-16, BOM, NUL, CR inside lines, 70000-byte lines, no final newline, "
+        "undecodable bytes inside other ports' and own marked lines.  A case is non-trivial when the file or the map is "
         "non-empty; distinct by content hash")
 TRUSTED_BASE = [
     "modelled, not verified: CPython text-mode open().read() (UTF-8, universal newlines), str.rstrip/strip/split/find, '%-30s' and '%d' formatting, sorted() on (name, ip) tuples, buffered text file write/close",
+    "the model's utf8_ok (well-formed UTF-8, Unicode table 3-7) stands for CPython's strict UTF-8 decoder; compared on every run (lead byte classes x "
+    "continuation bytes at the range borders, random byte strings); decode-then-encode of well-formed UTF-8 is the identity on bytes (the model works on bytes)",
+    "section H: setup_daemon, get_method (a method object that does nothing) and flush_systemd_dns_cache of sshuttle.firewall are replaced; the helper's "
+    "stdin/stdout are objects of the harness; rewrite_etc_hosts is wrapped only to record the map it is handed",
     "modelled, not verified: POSIX open(O_TRUNC|O_CREAT), link, rename (atomic replacement of the directory entry), chown, chmod, stat; shutil.copyfile (SameFileError on hard-linked source/target)",
     "paths are an inductive type in the model (hosts / backup / per-port temporary): distinct ports give distinct temporary names",
     "in-place writes through a second hard link to the temporary file are not modelled (the temporary is only ever created by open(..., 'w')); "
     "a pre-existing temporary (left by a crashed call, or by anybody) IS part of the start states of model, theorems and harness",
 ]
 ASSUMPTIONS = [
-    "the hosts file decodes in the locale encoding (UTF-8 here) and its trailing white space / all-white-space test involves ASCII white space only; otherwise: UnicodeDecodeError before anything is written, or Unicode white space stripped (observed, documented in the evidence notes, outside the model)",
+    "the locale encoding is UTF-8 (checked at the start of the run).  A hosts file that does not decode makes rewrite_etc_hosts raise UnicodeDecodeError "
+    "at the read, before anything is touched (model: rewrite_dec / c14_rewrite_any_bytes; checked on arbitrary-bytes contents); firewall.main does not "
+    "catch it: the helper undoes the packet-filter rules and ends, no host name is added, the client fails at its next HOST line or at clean-up.  The "
+    "property sentences are not violated by that (no line is added, removed or altered; no instance is left running) - recorded as an observation, "
+    "not as a defect",
+    "the trailing white space / all-white-space test of the file involves ASCII white space (and FS/GS/RS/US) only; other Unicode white space at the very "
+    "end of the file is stripped by the code as well (observed, documented in the evidence notes, outside the model: such contents are judged by the oracle alone)",
     "os.rename succeeds in the model and the theorems; the real code is ALSO run (section G, implementation-only) with a rename that is refused "
     "(EBUSY: the hosts file is a bind mount, as in a container; EPERM/EACCES: 'locked') — the documented non-atomic shutil.move fallback "
     "(firewall.py:61-67) must still install exactly (old lines minus own marked lines) + own marked lines; atomicity is NOT claimed there "
     "(the code says so itself) — and with a hosts file that cannot be read (EACCES, EIO, EISDIR: firewall.py:33-37): nothing may be touched",
     "host names and addresses handed to rewrite_etc_hosts contain no newline and no '#' (supplied by C19); c14_serial_histories states this hypothesis",
     "no third party modifies the hosts directory while a call runs (other than the sshuttle instances in the schedule)",
-    "histories and interleavings call rewrite_etc_hosts/restore_etc_hosts the way firewall.main does (hostmap[name]=ip; rewrite / finally: restore); firewall.main itself is not run here",
+    "sections B, C, D, F call rewrite_etc_hosts/restore_etc_hosts the way firewall.main does (hostmap[name]=ip; rewrite / finally: restore); "
+    "section H runs firewall.main itself (helpers in one process, one at a time: whole HOST lines interleave, primitives inside a rewrite do not - that is section D)",
 ]
 
 PORTS = [12300, 1230, 123000, 12299, 1, 0, 65535]
@@ -347,12 +373,41 @@ def hm_tokens(hm):
 # the specification side, written directly from the property text (used as the
 # oracle on the implementation's behaviour; independent of the extracted model)
 
+ASCII_WS = " \t\n\r\x0b\x0c\x1c\x1d\x1e\x1f"
+
+
+def decodes(content):
+    """does the text-mode read of the code (locale encoding = UTF-8, checked in correspondence()) accept these bytes?"""
+    try:
+        (content or b"").decode("utf-8")
+        return True
+    except UnicodeDecodeError:
+        return False
+
+
+def sx(content):
+    """bytes -> str, one to one for ARBITRARY bytes (a byte that does not decode becomes a lone surrogate, which is
+    neither white space nor part of any marker): comparing such strings is comparing the bytes"""
+    return (content or b"").decode("utf-8", "surrogateescape")
+
+
+def xs(text):
+    return text.encode("utf-8", "surrogateescape")
+
+
+def in_model(content):
+    """the Coq model's white space is ASCII white space (+ FS/GS/RS/US); a decodable file whose trailing white space or
+    all-blank test involves other Unicode white space is outside it (ASSUMPTIONS) and judged by the oracle alone"""
+    if not decodes(content):
+        return True                 # rewrite_dec: raises at the read
+    t = (content or b"").decode("utf-8").replace("\r\n", "\n").replace("\r", "\n")
+    return t.rstrip() == t.rstrip(ASCII_WS) and bool(t.strip()) == bool(t.strip(ASCII_WS))
+
+
 def spec_norm_lines(content):
     """lines of a hosts file modulo the normalisation the code performs: text-mode newline
     translation, all trailing white space of the file removed, then split at '\\n'"""
-    if content is None:
-        content = b""
-    s = content.decode("utf-8").replace("\r\n", "\n").replace("\r", "\n")
+    s = sx(content).replace("\r\n", "\n").replace("\r", "\n")
     return s.rstrip().split("\n")
 
 
@@ -362,7 +417,17 @@ def spec_marked(port, hm):
 
 def spec_rewrite(content, port, hm):
     lines = [l for l in spec_norm_lines(content) if marker(port) not in l] + spec_marked(port, hm)
-    return "".join(l + "\n" for l in lines).encode("utf-8")
+    return xs("".join(l + "\n" for l in lines))
+
+
+def spec_last(upd):
+    """the discovered hosts after an update history [(name, ip), ...]: every name once, at the address of its LAST update
+    (Props/C14.v c14_map_last_address: hm_get name (hm_after upd) = last_addr name upd)"""
+    names = []
+    for n, _ in upd:
+        if n not in names:
+            names.append(n)
+    return {n: [ip for m, ip in upd if m == n][-1] for n in names}
 
 
 def base_lines(content, ports):
@@ -456,6 +521,49 @@ def gen_content(rng, port):
     return s.encode("utf-8")
 
 
+RAW_LINES = [
+    "# Caf\xe9 printer, added by J\xf6rg (Latin-1 editor)".encode("latin-1"),      # Latin-1 text on a UTF-8 system
+    b"10.1.1.1 h\xf4te.example  # h\xf4te",
+    b"\x80", b"\xbf lone continuation", b"\xc3", b"10.0.0.7 cut\xe2\x82", b"\xc0\x80 overlong", b"\xe0\x80\x80", b"\xed\xa0\x80 surrogate",
+    b"\xf4\x90\x80\x80 too high", b"\xf5\x80\x80\x80", b"\xfe\xff", b"\xff", b"\xc3\x28", b"ok \xc3\xa9 then \xe9",
+    "10.0.0.8 wide".encode("utf-16-le"),                                              # NULs, and FF FE with a BOM
+    b"\xff\xfe1\x000\x00", b"10.0.0.9 a\x00b", b"\x00", b"\x00\x00\x00 # nul", b"1.2.3.4 x\x00",
+    "\ufeff127.0.0.1 bom".encode("utf-8"), "10.2.2.2 caf\xe9 \u65e5\u672c\u8a9e \U0001f600".encode("utf-8"),
+    b"# \x1b[31m escape \x07 \x7f", b"\x01\x02\x03", b"tab\there \x0b\x0c",
+]
+
+
+def gen_raw_line(rng, port):
+    k = rng.random()
+    if k < 0.45:
+        return rng.choice(RAW_LINES)
+    if k < 0.65:
+        return bytes(rng.choice([c for c in range(256) if c != 10]) for _ in range(rng.choice([1, 2, 3, 8, 40])))   # any byte but LF (CR, NUL included)
+    if k < 0.72:
+        return b"# " + b"L" * rng.choice([5000, 70000]) + rng.choice([b"", b"\xe9", b" \xc3\xa9", b"\x00"])            # very long line
+    if k < 0.80:
+        return b"a\rb " + rng.choice([b"", b"\xe9", b"\r", b"\r\r c"])                                                  # CR inside a line
+    other = rng.choice([q for q in (port * 10, port // 10, port + 1, 12300, 1230) if q != port])
+    if k < 0.90:
+        return ("%-30s %s" % ("10.3.3.3 ot\xe9", marker(other))).encode("latin-1")                                       # another port's line, undecodable
+    if k < 0.95:
+        return ("%-30s %s" % ("10.4.4.4 st\xe9", marker(port))).encode("latin-1")                                        # a stale own line, undecodable
+    return rng.choice(["1.2.3.4 nbsp\xa0", "\u2003", "\x85", "x\u2028y", "\u3000 \xa0"]).encode("utf-8")                   # Unicode white space (decodes)
+
+
+def gen_bytes_content(rng, port):
+    """foreign file contents of arbitrary bytes: not valid UTF-8, NUL, CR, very long lines, no final newline, ..."""
+    n = rng.choice([1, 1, 2, 3, 5, 9])
+    lines = []
+    for _ in range(n):
+        lines.append(gen_raw_line(rng, port) if rng.random() < 0.5 else gen_line(rng, port).encode("utf-8"))
+    if not any(not decodes(l) or b"\x00" in l or b"\r" in l or len(l) > 4000 for l in lines):
+        lines[rng.randrange(len(lines))] = rng.choice(RAW_LINES)
+    term = rng.choice([b"\n", b"\n", b"\n", b"\r\n", b"\r"])
+    out = term.join(lines)
+    return out + rng.choice([b"", b"", term, term, term * 3, b" ", term + b" \t" + term])
+
+
 # ----------------------------------------------------------------------------
 # A. single calls: trace + final directory, model vs real; oracle = spec_rewrite
 
@@ -464,21 +572,22 @@ def run_single(ctx, fw, cases):
     for (content, port, hm, bak, lnk, uid, gid, mode, restore) in cases:
         w = World(content, uid, gid, mode, bak, lnk)
         try:
+            snap0 = w.snapshot()
             with Patched(fw, w):
                 status, ev = call_impl(fw, w, port, hm, restore)
             snap = w.snapshot()
-            impl.append((status, ev, canon_snapshot(snap, w.ino_h0, w.ino_b0), snap.get("hosts", (None,))[0]))
-            lines.append("%s %d %s %s" % ("RS" if restore else "RW", port, hm_tokens(hm), w.fs_tokens()))
+            impl.append((status, ev, canon_snapshot(snap, w.ino_h0, w.ino_b0), snap.get("hosts", (None,))[0], snap == snap0))
+            lines.append("%s %d %s %s" % ("RSD" if restore else "RWD", port, hm_tokens(hm), w.fs_tokens()))
             meta.append((content, port, hm, bak, lnk, restore))
         finally:
             w.close()
     out = ctx.run_driver(lines)
-    for ln, (status, ev, fs, newhosts), o, (content, port, hm, bak, lnk, restore) in zip(lines, impl, out, meta):
+    for ln, (status, ev, fs, newhosts, untouched), o, (content, port, hm, bak, lnk, restore) in zip(lines, impl, out, meta):
         parts = [x.strip() for x in o.split("|")]
+        mpc, mtr, mfs = parts
         if restore:
-            mpc, mtr, mfs = "done", parts[0], parts[1]
-        else:
-            mpc, mtr, mfs = parts
+            mpc = "crash" if mpc == "1" else "done"
+        und = not decodes(content)
         mfs_c = canon_model_fs(mfs, content is not None, bak is not None)
         desc = ("single", content, port, tuple(sorted(hm.items())), bak, lnk, restore)
         ctx.case(desc, nontrivial=bool(content) or bool(hm),
@@ -486,18 +595,30 @@ def run_single(ctx, fw, cases):
                          "old": None if content is None else content[:120].decode("utf-8", "replace"),
                          "map": dict(list(hm.items())[:3]), "primitives": ev[:4] + ["..."] + ev[-3:],
                          "new": (newhosts or b"")[:200].decode("utf-8", "replace")})
-        ok = (status.split(":")[0] == mpc and ev == canon_model_trace(mtr) and fs == mfs_c)
+        ok = (status.split(":")[0] == mpc and ev == canon_model_trace(mtr) and fs == mfs_c) or not in_model(content)
         # the property oracle on the implementation alone
         if restore and not hm:
             want = content
         else:
             want = spec_rewrite(content, port, {} if restore else hm)
         holds = (newhosts == want)
+        if und and not (restore and not hm):
+            # bytes that do not decode: the call may give up, but then NOTHING may have been touched (hosts file
+            # byte-identical and the same inode, no backup, no temporary); or it completes and every line is copied
+            # byte for byte (c14_rewrite_any_bytes)
+            ctx.count("single_call_on_undecodable_content")
+            holds = (status.startswith("crash:") and untouched) or (status == "done" and newhosts == want)
+            if not holds:
+                ctx.violation("hosts file holding bytes that do not decode: a line that does not carry this port's marker was altered "
+                              "(the file must be left untouched or every such line copied byte for byte)",
+                              {"kind": "single", "content_hex": hx(content), "port": port, "map": dict(hm), "restore": restore,
+                               "status": status, "got_hex": None if newhosts is None else hx(newhosts), "want_hex": hx(want),
+                               "undecodable": True})
         if not ok:
             ctx.disagree("rewrite_etc_hosts trace/final state", ln[:600],
                          {"status": status, "events": ev[:40], "fs": fs[:600]},
                          {"pc": mpc, "events": canon_model_trace(mtr)[:40], "fs": mfs_c[:600]}, holds)
-        if not holds:
+        if not holds and not und:
             ctx.violation("hosts file after one rewrite is not (old lines minus own marked lines) + own marked lines",
                           {"kind": "single", "content_hex": None if content is None else hx(content), "port": port,
                            "map": dict(hm), "restore": restore, "got_hex": None if newhosts is None else hx(newhosts),
@@ -1119,13 +1240,23 @@ def run_outside_model(ctx, fw):
             m = ctx.run_driver(["NEW 12300 %s %s" % (hm_tokens({"h": "1.1.1.1"}), hx(content))])[0]
             model_new = b"" if m == "-" else bytes.fromhex(m)
             ctx.count("outside_model_stream")
-            if st.startswith("crash"):
-                untouched = (after == content and sorted(snap) == ["hosts"])
-                notes.append("%s: real code raises %s at the read; hosts file untouched=%s, no temporary/backup created=%s; "
-                             "the HOST loop of firewall.main dies with it (host names are never added)"
-                             % (what, st.split(":")[1], after == content, sorted(snap) == ["hosts"]))
-                if not untouched:
-                    ctx.violation("undecodable hosts file was modified", {"kind": "undecodable", "content_hex": hx(content), "got_hex": hx(after or b"")})
+            if not decodes(content):
+                untouched = (after == content and sorted(snap) == ["hosts"] and snap["hosts"][4] == w.ino_h0)
+                want = spec_rewrite(content, 12300, {"h": "1.1.1.1"})
+                notes.append("%s: the real code %s; hosts file untouched=%s, no temporary/backup created=%s%s"
+                             % (what, "raises %s at the read" % st.split(":")[1] if st.startswith("crash") else "completes",
+                                after == content, sorted(snap) == ["hosts"],
+                                "; the HOST loop of firewall.main ends with that error: the helper undoes the packet-filter rules and exits, "
+                                "no host name is ever added (the client then fails at its next HOST line / at clean-up)" if st.startswith("crash") else ""))
+                if not ((st.startswith("crash") and untouched) or (st == "done" and after == want)):
+                    ctx.violation("hosts file holding bytes that do not decode: a line that does not carry this port's marker was altered "
+                                  "(the file must be left untouched or every such line copied byte for byte)",
+                                  {"kind": "single", "content_hex": hx(content), "port": 12300, "map": {"h": "1.1.1.1"}, "restore": False,
+                                   "status": st, "got_hex": hx(after or b""), "want_hex": hx(want), "undecodable": True})
+            elif st.startswith("crash"):
+                ctx.violation("rewrite_etc_hosts ended with %s on a hosts file that decodes" % st,
+                              {"kind": "single", "content_hex": hx(content), "port": 12300, "map": {"h": "1.1.1.1"}, "restore": False,
+                               "status": st, "got_hex": hx(after or b""), "want_hex": hx(spec_rewrite(content, 12300, {"h": "1.1.1.1"}))})
             else:
                 notes.append("%s: real result %s the ASCII-white-space model (real %r)" %
                              (what, "equals" if after == model_new else "differs from", after[:60]))
@@ -1215,6 +1346,423 @@ def run_refused(ctx, fw, n):
 
 
 # ----------------------------------------------------------------------------
+# H. update histories through the REAL firewall.main: every helper is the real main() in its own thread, its control
+#    channel (stdin) is fed line by line by the scheduler here - ROUTES .. GO, then HOST lines in which names repeat with the
+#    same / another address, interleaved with other names and with the HOST lines of other helpers (other ports), then
+#    end of input.  Each time a helper comes back for its next line the scratch directory is looked at.  Only
+#    setup_daemon (needs root, detaches), get_method (no packet filter here) and flush_systemd_dns_cache are replaced;
+#    rewrite_etc_hosts is wrapped to see the map main() hands over (compared with the model's hm_after).
+#    Oracle, from the property text and Props/C14.v (c14_session_last_address, c14_map_last_address), on the files alone:
+#    lines without a marker of the scenario's ports never change; a running instance that has been sent HOST lines has
+#    exactly one marked line per distinct name, at the address of the name's LAST update, sorted; an ended instance has
+#    none; starting a helper and ending one that never got a HOST line do not touch the file.  A hosts file that does
+#    not decode may make the helper give up - then nothing at all may have been touched (c14_rewrite_any_bytes).
+
+class FakeMethod:
+    name = "fake"
+
+    def is_supported(self):
+        return True
+
+    def setup_firewall(self, *a):
+        pass
+
+    def restore_firewall(self, *a):
+        pass
+
+    def wait_for_firewall_ready(self, *a):
+        raise NotImplementedError()
+
+    def firewall_command(self, line):
+        return False
+
+
+class _Sink:
+    def __init__(self):
+        self.data = b""
+
+    def write(self, b):
+        self.data += b
+        return len(b)
+
+    def flush(self):
+        pass
+
+
+class Helper(threading.Thread):
+    """one real firewall.main(); the scheduler feeds its control channel one line at a time"""
+
+    def __init__(self, fw, pv6, pv4):
+        threading.Thread.__init__(self, daemon=True)
+        import queue
+        self.fw, self.pv6, self.pv4 = fw, pv6, pv4
+        self.port = pv6 or pv4
+        self.events = queue.Queue()
+        self.lines = queue.Queue()
+        self.stdout = _Sink()
+        self.maps_seen = []          # (items of the map in dict order, port) at every call of rewrite_etc_hosts
+        self.status = None
+        self.upd = []                # HOST updates sent so far
+
+    # -- the helper's side (its stdin)
+    def readline(self, *a):
+        self.events.put("ask")
+        return self.lines.get()
+
+    def run(self):
+        _tls.helper = self
+        try:
+            try:
+                self.fw.main("fake", False)
+                st = "return"
+            except BaseException as e:        # noqa: Fatal, UnicodeDecodeError, SystemExit ...
+                st = "crash:" + type(e).__name__
+        finally:
+            _tls.helper = None
+        self.status = st
+        self.events.put("end")
+
+    # -- the scheduler's side
+    def wait(self):
+        ev = self.events.get(timeout=60)
+        if ev == "end":
+            self.join(10)
+        return ev
+
+    def feed(self, line):
+        self.lines.put(line)
+        return self.wait()
+
+
+class MainPatched:
+    """the three replacements firewall.main needs to run here + the observing wrapper around rewrite_etc_hosts"""
+
+    def __init__(self, fw):
+        self.fw = fw
+
+    def __enter__(self):
+        fw = self.fw
+        self.old = (fw.setup_daemon, fw.get_method, fw.flush_systemd_dns_cache, fw.rewrite_etc_hosts, fw.sshuttle_pid)
+        real = fw.rewrite_etc_hosts
+
+        def spy(hostmap, port):
+            h = getattr(_tls, "helper", None)
+            if h is not None:
+                h.maps_seen.append((list(hostmap.items()), port))
+            return real(hostmap, port)
+
+        def daemon():
+            h = _tls.helper
+            return (h, h.stdout)
+        fw.setup_daemon = daemon
+        fw.get_method = lambda name: FakeMethod()
+        fw.flush_systemd_dns_cache = lambda: None
+        fw.rewrite_etc_hosts = spy
+        return self
+
+    def __exit__(self, *a):
+        fw = self.fw
+        fw.setup_daemon, fw.get_method, fw.flush_systemd_dns_cache, fw.rewrite_etc_hosts, fw.sshuttle_pid = self.old
+
+
+def preamble(pv6, pv4):
+    import socket
+    return [b"ROUTES\n", b"%d,24,0,10.77.0.0,0,0\n" % socket.AF_INET, b"NSLIST\n",
+            b"PORTS %d,%d,0,0\n" % (pv6, pv4), b"GO 0 - - 0x01 %d\n" % os.getpid()]
+
+
+def run_main_scenario(fw, content, lnk, ops):
+    """ops: ["S", i, port_v6, port_v4] start helper i | ["H", i, name, ip] one HOST line | ["E", i] end of its input |
+            ["D", port, name, ip] hostmap[name] = ip; rewrite_etc_hosts called directly | ["X", port] restore_etc_hosts directly.
+    -> (records per op [(status, hosts bytes, snapshot)], initial snapshot, {i: maps_seen}, world ids, fs tokens)"""
+    w = World(content, 0, 0, 0o644, None, lnk)
+    helpers, recs, direct = {}, [], {}
+    try:
+        snap0 = w.snapshot()
+        with Patched(fw, w), MainPatched(fw):
+            try:
+                for op in ops:
+                    k = op[0]
+                    if k == "S":
+                        h = helpers[op[1]] = Helper(fw, op[2], op[3])
+                        h.start()
+                        st = h.wait()
+                        for ln in preamble(op[2], op[3]):
+                            if st != "ask":
+                                break
+                            st = h.feed(ln)
+                        st = "ask" if st == "ask" and h.stdout.data.endswith(b"STARTED\n") else (h.status or "no STARTED")
+                    elif k == "H":
+                        h = helpers[op[1]]
+                        if h.status is not None:
+                            st = "gone"
+                        else:
+                            h.upd.append((op[2], op[3]))
+                            st = h.feed(("HOST %s,%s\n" % (op[2], op[3])).encode("ascii"))
+                            st = "ask" if st == "ask" else h.status
+                    elif k == "E":
+                        h = helpers[op[1]]
+                        if h.status is not None:
+                            st = "gone"
+                        else:
+                            h.feed(b"")
+                            st = h.status or "still running after end of input"
+                    elif k == "D":
+                        hm = direct.setdefault(op[1], {})
+                        hm[op[2]] = op[3]                         # what firewall.main does (firewall.py:383)
+                        st, _ = call_impl(fw, w, op[1], hm)
+                    else:
+                        st, _ = call_impl(fw, w, op[1], direct.get(op[1], {}), restore=True)
+                        direct[op[1]] = {}
+                    recs.append((st, w.hosts_bytes(), w.snapshot()))
+            finally:
+                for h in helpers.values():          # nobody is left waiting
+                    if h.status is None:
+                        h.lines.put(b"")
+                        h.join(10)
+        return recs, snap0, {i: h.maps_seen for i, h in helpers.items()}, (w.ino_h0, w.ino_b0), w.fs_tokens()
+    finally:
+        w.close()
+
+
+def judge_main_scenario(content, ops, recs, snap0):
+    """the oracle, on the scratch directory alone; -> None or (index of the op, what)"""
+    und = not decodes(content)
+    port_of = {}                 # helper -> port
+    upd = {}                     # port -> update history of the session of that port that is running (None: no session)
+    ever = set()                 # ports whose own marked lines of the initial file have been replaced by a session
+    gone = set()                 # helpers that gave up (tolerated only on an undecodable file)
+    ports = sorted({(op[2] or op[3]) if op[0] == "S" else op[1] for op in ops if op[0] in ("S", "D", "X")})
+    prev = snap0
+    for k, (op, (st, data, snap)) in enumerate(zip(ops, recs)):
+        kind = op[0]
+        touched = snap != prev
+        if kind in ("H", "E") and op[1] in gone:
+            if touched:
+                return k, "nothing was asked of any helper, yet the hosts directory changed"
+            prev = snap
+            continue
+        crashed = st.startswith("crash:") or st in ("no STARTED",)
+        if crashed:
+            if not (und and st == "crash:UnicodeDecodeError"):
+                return k, "firewall.main / rewrite_etc_hosts ended with %s on %s" % (
+                    st, "a hosts file that decodes" if not und else "a hosts file holding bytes that do not decode")
+            if touched:
+                return k, ("hosts file holding bytes that do not decode: the helper gave up, but not before touching the "
+                           "hosts directory (must be untouched: same bytes, same inode, no backup, no temporary)")
+            if kind in ("S", "H", "E"):
+                gone.add(op[1])
+                if kind != "S" and port_of.get(op[1]) is not None:
+                    upd[port_of[op[1]]] = None
+            prev = snap
+            continue
+        if kind == "S":
+            port_of[op[1]] = op[2] or op[3]
+            upd[port_of[op[1]]] = []
+            if st != "ask":
+                return k, "helper did not report STARTED (%s)" % st
+            if touched:
+                return k, "starting a session changed the hosts directory before any host was discovered"
+        elif kind in ("H", "D"):
+            p = port_of[op[1]] if kind == "H" else op[1]
+            if upd.get(p) is None:
+                upd[p] = []
+            upd[p].append((op[2], op[3]))
+            ever.add(p)
+            if (kind == "H" and st != "ask") or (kind == "D" and st != "done"):
+                return k, "HOST line not processed (%s)" % st
+        else:
+            p = port_of[op[1]] if kind == "E" else op[1]
+            had = bool(upd.get(p))
+            upd[p] = None
+            if (kind == "E" and st != "return") or (kind == "X" and st != "done"):
+                return k, "session end: %s" % st
+            if not had and touched:
+                return k, "ending a session that never added a host changed the hosts directory"
+        prev = snap
+        if any(n.startswith("tmp") or n.startswith("OTHER") for n in snap):
+            return k, "a complete call left a temporary behind"
+        if base_lines(data, ports) != base_lines(content, ports):
+            return k, "update history: a line without any session's marker was altered, lost or moved%s" % (
+                " (hosts file holding bytes that do not decode: it must be left untouched or every such line copied byte for byte)" if und else "")
+        ls = spec_norm_lines(data)
+        for p in ports:
+            mine = [l for l in ls if marker(p) in l]
+            if upd.get(p):
+                want = spec_marked(p, spec_last(upd[p]))
+                if mine != want:
+                    names = [n for n, _ in upd[p]]
+                    rep = len(names) != len(set(names))
+                    return k, ("update history%s: the running instance's marked lines are not one line per discovered host "
+                               "at the address of the host's LAST update" % (" with a repeated name" if rep else ""))
+            elif p in ever:
+                if mine:
+                    return k, "session end: marked lines of the ended session are still in the hosts file"
+            elif mine != [l for l in spec_norm_lines(content) if marker(p) in l]:
+                return k, "lines left by an earlier session of this port changed before this session discovered any host"
+    return None
+
+
+IP_POOL = ["10.0.0.1", "10.0.0.2", "10.0.0.3", "192.168.1.1", "192.168.100.200", "1.1.1.1", "255.255.255.255"]
+
+
+def gen_main_scenario(rng, arb, direct=False):
+    hports = [12300, 1230, 2300, 12299, 1, 65535, 12301]        # what PORTS can carry: 0..65535
+    nh = rng.choice([1, 1, 1, 2, 2, 3])
+    ports = rng.sample(hports, nh)
+    content = gen_bytes_content(rng, ports[0]) if arb else gen_content(rng, ports[0])
+    pool = [gen_name(rng, rng.choice([1, 3, 5, 8, 19])) for _ in range(rng.choice([1, 2, 3, 4]))]
+    pool += [pool[0].upper() or "A", pool[0] + "x", pool[0][:-1] or "p"]       # other keys: case, extension, prefix
+    ops, alive, cur = [], [], {}
+    pend = list(range(nh))
+    pv = {}
+    nsteps = rng.choice([2, 3, 4, 6, 9, 14])
+    nxt = nh
+    for _ in range(nsteps + nh):
+        r = rng.random()
+        if pend and (not alive or r < 0.3):
+            i = pend.pop(0)
+            p = ports[i] if i < nh else pv[i]
+            v6 = rng.random() < 0.3
+            q = rng.choice([0, 0, 4000 + i])
+            if not direct:
+                ops.append(["S", i, p if v6 else 0, q if v6 else p])
+            alive.append((i, p))
+            cur[i] = {}
+            continue
+        if not alive:
+            break
+        i, p = rng.choice(alive)
+        if r > 0.9:
+            ops.append(["X", p] if direct else ["E", i])
+            alive.remove((i, p))
+            if rng.random() < 0.5:              # a later session on the port just freed
+                pv[nxt] = p
+                pend.append(nxt)
+                nxt += 1
+            continue
+        known = sorted(cur[i])
+        if known and rng.random() < 0.55:
+            name = rng.choice(known)           # a name this instance already recorded ...
+            t = rng.random()
+            if t < 0.3:
+                ip = cur[i][name]              # ... reported again with the same address
+            elif t < 0.5 and len(set(cur[i].values())) > 1:
+                ip = rng.choice(sorted(set(cur[i].values()) - {cur[i][name]}))   # ... now at the address of another host
+            else:
+                ip = rng.choice(IP_POOL + [gen_ip(rng)])                        # ... moved (maybe back to an earlier address)
+        else:
+            name = rng.choice(pool) if rng.random() < 0.8 else gen_name(rng)
+            ip = rng.choice(IP_POOL + [gen_ip(rng)])
+        cur[i][name] = ip
+        ops.append(["D", p, name, ip] if direct else ["H", i, name, ip])
+    for i, p in alive:
+        ops.append(["X", p] if direct else ["E", i])
+    return content, rng.random() < 0.8, ops
+
+
+MAIN_FIXED = [
+    # the address of a host changes while the session runs
+    (b"127.0.0.1 localhost\n# a comment line\n192.168.7.7 printer   # sshuttle-firewall-4711 AUTOCREATED\n10.9.9.9 fileserver\n", True,
+     [["S", 0, 0, 12300], ["H", 0, "alpha", "10.0.0.1"], ["H", 0, "beta", "10.0.0.2"], ["H", 0, "alpha", "10.0.0.3"], ["E", 0]]),
+    (b"127.0.0.1 localhost\n", True,
+     [["S", 0, 0, 12300], ["H", 0, "a", "10.0.0.1"], ["H", 0, "a", "10.0.0.1"], ["H", 0, "a", "10.0.0.2"], ["H", 0, "a", "10.0.0.1"], ["E", 0]]),
+    (b"127.0.0.1 localhost\n", False,
+     [["S", 0, 12300, 4000], ["S", 1, 0, 1230], ["H", 0, "a", "10.0.0.1"], ["H", 1, "a", "10.0.0.9"], ["H", 0, "b", "10.0.0.2"],
+      ["H", 1, "a", "10.0.0.1"], ["H", 0, "a", "10.0.0.2"], ["E", 0], ["H", 1, "b", "10.0.0.1"], ["S", 2, 0, 12300], ["H", 2, "a", "10.0.0.7"],
+      ["E", 1], ["E", 2]]),
+    (None, True, [["S", 0, 0, 12300], ["E", 0], ["S", 1, 0, 12300], ["H", 1, "x", "1.1.1.1"], ["H", 1, "X", "1.1.1.2"], ["H", 1, "x", "1.1.1.3"], ["E", 1]]),
+    (b"127.0.0.1 localhost\n", True, [["D", 12300, "alpha", "10.0.0.1"], ["D", 12300, "beta", "10.0.0.2"], ["D", 12300, "alpha", "10.0.0.3"], ["X", 12300]]),
+    # a Latin-1 comment on a UTF-8 system
+    (b"127.0.0.1 localhost\n# Caf\xe9 printer, added by J\xf6rg (Latin-1 editor)\n192.168.7.20 printer\n", True,
+     [["S", 0, 0, 12300], ["H", 0, "web-1", "10.1.2.3"], ["H", 0, "web-2", "10.1.2.4"], ["E", 0]]),
+    (b"\xff\xfe1\x002\x00", True, [["S", 0, 0, 12300], ["S", 1, 0, 1230], ["H", 1, "a", "1.1.1.1"], ["H", 0, "a", "1.1.1.1"], ["E", 0], ["E", 1]]),
+    (b"10.0.0.9 a\x00b\r\n# no final newline, CRLF, NUL", True, [["S", 0, 0, 12300], ["H", 0, "n", "1.1.1.1"], ["H", 0, "n", "1.1.1.2"], ["E", 0]]),
+]
+
+
+def run_main_sessions(ctx, fw, n):
+    import random
+    rng = random.Random("C14-main-%d" % ctx.seed)          # own stream: the other sections keep their cases
+    scen = [(c, l, o, "fixed") for c, l, o in MAIN_FIXED]
+    for k in range(n):
+        arb = k % 4 == 3
+        direct = k % 5 == 4
+        c, l, o = gen_main_scenario(rng, arb, direct)
+        scen.append((c, l, o, "direct" if direct else "main"))
+    hi_lines, hi_meta, hm_lines, hm_meta = [], [], [], []
+    for content, lnk, ops, kind in scen:
+        recs, snap0, seen, ids, fstok = run_main_scenario(fw, content, lnk, ops)
+        verdict = judge_main_scenario(content, ops, recs, snap0)
+        und = not decodes(content)
+        upds = {}
+        for op in ops:
+            if op[0] in ("H", "D"):
+                upds.setdefault(op[1], []).append((op[2], op[3]))
+        rep_same = rep_diff = 0
+        for u in upds.values():
+            last = {}
+            for nm, ip in u:
+                if nm in last:
+                    if last[nm] == ip:
+                        rep_same += 1
+                    else:
+                        rep_diff += 1
+                last[nm] = ip
+        ctx.count("main_scenarios_%s" % kind)
+        ctx.count("main_host_lines", sum(len(u) for u in upds.values()))
+        ctx.count("main_host_lines_repeating_a_name_same_address", rep_same)
+        ctx.count("main_host_lines_repeating_a_name_other_address", rep_diff)
+        if und:
+            ctx.count("main_scenarios_on_undecodable_hosts_file")
+            if any(r[0] == "crash:UnicodeDecodeError" for r in recs):
+                ctx.count("main_helper_gave_up_on_undecodable_hosts_file")
+        elif content is not None and (b"\x00" in content or b"\r" in content or not content.endswith(b"\n") or max(map(len, content.split(b"\n"))) > 4000):
+            ctx.count("main_scenarios_on_odd_but_decodable_hosts_file")
+        ctx.case(("main", content, lnk, repr(ops)), nontrivial=bool(upds),
+                 sample={"kind": "firewall.main update history", "ops": [" ".join(str(x) for x in o) for o in ops][:8],
+                         "hosts_after_each": [(r[1] or b"")[-120:].decode("utf-8", "replace") for r in recs][:8]}
+                 if kind == "fixed" and len(ctx.samples) < 6 and ops[0][0] == "S" and len(ops) == 5 else None)
+        if verdict is not None:
+            k, why = verdict
+            ctx.violation(("firewall.main control channel: " if kind != "direct" and ops[0][0] != "D" else "rewrite_etc_hosts called as firewall.main does: ") + why,
+                          {"kind": "main", "content_hex": None if content is None else hx(content), "link_ok": lnk,
+                           "ops": ops[:k + 1], "failed_op": k, "status": recs[k][0],
+                           "got_hex": None if recs[k][1] is None else hx(recs[k][1])})
+        # --- model: hosts file after every hop (HI), the helper's map (HM)
+        if not und and in_model(content):
+            port_of = {op[1]: (op[2] or op[3]) for op in ops if op[0] == "S"}
+            hops, got = [], []
+            for op, r in zip(ops, recs):
+                if op[0] in ("H", "D"):
+                    hops.append("H:%d:%s:%s" % (port_of[op[1]] if op[0] == "H" else op[1], hx(op[2].encode()), hx(op[3].encode())))
+                elif op[0] in ("E", "X"):
+                    hops.append("E:%d" % (port_of[op[1]] if op[0] == "E" else op[1]))
+                else:
+                    continue
+                got.append(hx(r[1]) if r[1] is not None else "MISSING")
+            if hops:
+                hi_lines.append("HI %s %s" % (fstok, " ".join(hops)))
+                hi_meta.append((ops, got, verdict is None))
+        for i, calls in seen.items():
+            u = upds.get(i, [])
+            if u and not und:
+                hm_lines.append("HM %s" % hm_tokens(u))
+                hm_meta.append((ops, i, u, [c for c in calls if c[0]]))
+    for ln, o, (ops, got, holds) in zip(hi_lines, ctx.run_driver(hi_lines), hi_meta):
+        if got != (o.split(";") if o else []):
+            ctx.disagree("update history through firewall.main vs hop_step", ln[:700], got[:12], o.split(";")[:12], holds)
+    for ln, o, (ops, i, u, calls) in zip(hm_lines, ctx.run_driver(hm_lines), hm_meta):
+        m_map, m_last = [x.strip() for x in o.split("|")]
+        real_map = hm_tokens(calls[-1][0]) if calls else "(rewrite_etc_hosts never called with a map)"
+        spec = hm_tokens(list(spec_last(u).items()))
+        if real_map != m_map or spec != m_last:
+            ctx.disagree("the map firewall.main hands to rewrite_etc_hosts vs hm_after / last_addr", ln[:500],
+                         {"main": real_map[:300], "spec_last": spec[:300]}, {"hm_after": m_map[:300], "last_addr": m_last[:300]},
+                         sorted(bytes.fromhex(x.split(":")[0]) for x in real_map.split(",") if ":" in x) == sorted(n.encode() for n in spec_last(u)))
+
+
+# ----------------------------------------------------------------------------
 
 def correspondence(ctx):
     fw = load()
@@ -1227,6 +1775,33 @@ def correspondence(ctx):
             ctx.case(("marker", p), nontrivial=True)
             if bytes.fromhex(m).decode() != marker(p):
                 ctx.disagree("marker text", p, marker(p), m)
+
+        # the text-mode read of the code decodes with the locale encoding: the runs below take it to be UTF-8
+        import locale
+        enc = locale.getpreferredencoding(False).lower().replace("-", "").replace("_", "")
+        ctx.extra["locale_encoding"] = enc
+        if enc != "utf8":
+            raise RuntimeError("locale encoding is %s, the hosts-file checks assume UTF-8" % enc)
+        # utf8_ok of the model = CPython's strict decoder: every lead byte class x continuation bytes at the range borders
+        import itertools
+        import random
+        brng = random.Random("C14-bytes-%d" % ctx.seed)
+        leads = list(range(0x80, 0x100)) if not quick else [0x80, 0xbf, 0xc0, 0xc1, 0xc2, 0xdf, 0xe0, 0xe1, 0xec, 0xed, 0xee, 0xef,
+                                                            0xf0, 0xf1, 0xf3, 0xf4, 0xf5, 0xf8, 0xff]
+        conts = [0x00, 0x7f, 0x80, 0x8f, 0x90, 0x9f, 0xa0, 0xbf, 0xc0, 0xff]
+        u8 = [b"", b"a", b"\x00", b"\x7f"] + [bytes([l]) for l in leads]
+        for n in (1, 2, 3):
+            for l in leads:
+                for cs in itertools.product(conts, repeat=n):
+                    u8.append(bytes((l,) + cs))
+        for _ in range(500 if quick else 20000):
+            u8.append(b"ok " + bytes(brng.choice(range(256)) for _ in range(brng.randint(1, 6))) + b" ok")
+            u8.append(gen_raw_line(brng, 12300))
+        for b, o in zip(u8, ctx.run_driver(["U8 %s" % hx(b) for b in u8])):
+            ctx.case(("utf8_ok", b), nontrivial=len(b) > 1)
+            if o != ("1" if decodes(b) else "0"):
+                ctx.disagree("utf8_ok vs CPython's UTF-8 decoder", hx(b), decodes(b), o)
+        ctx.count("utf8_validity_cases", len(u8))
 
         # ---- A: single calls
         cases = []
@@ -1259,7 +1834,27 @@ def correspondence(ctx):
                 ctx.count("content_with_own_marker")
             if any(len(i) + 1 + len(nm) > 30 for nm, i in hm.items()):
                 ctx.count("map_with_entry_wider_than_30")
-        run_single(ctx, fw, cases)
+        # foreign file contents of arbitrary bytes (not valid UTF-8, NUL, CR, very long lines, no final newline); own stream
+        fixed_b = [b"127.0.0.1 localhost\n# Caf\xe9 printer, added by J\xf6rg (Latin-1 editor)\n192.168.7.20 printer\n", b"\xff\xfe", b"\xe9",
+                   b"a\n\xc3", b"\x00\n", b"10.0.0.9 a\x00b", b"a\rb\r\xe9\r", ("x %s \xe9\n" % marker(12300)).encode("latin-1"),
+                   b"L" * 70000 + b"\xe9\nkeep", "\ufeff1.1.1.1 bom\n".encode("utf-8")]
+        bcases = []
+        for c in fixed_b:
+            for hm in ({}, {"myhost": "1.2.3.4", "myotherhost": "1.2.3.5"}):
+                bcases.append((c, 12300, hm, None, True, 0, 0, 0o644, False))
+            bcases.append((c, 12300, {"h": "9.9.9.9"}, None, False, 1000, 50, 0o600, True))
+            bcases.append((c, 1230, {"h": "9.9.9.9"}, b"old backup\n", True, 0, 0, 0o644, False))
+        for _ in range(300 if quick else 6000):
+            port = brng.choice(PORTS)
+            c = gen_bytes_content(brng, port)
+            bcases.append((c, port, gen_map(brng), brng.choice([None, None, b"bak\n"]), brng.random() < 0.8) +
+                          brng.choice([(0, 0, 0o644), (1000, 1000, 0o600)]) + (brng.random() < 0.15,))
+            ctx.count("bytes_content_" + ("undecodable" if not decodes(c) else "decodable_outside_model" if not in_model(c) else "decodable"))
+            if b"\x00" in c:
+                ctx.count("bytes_content_with_NUL")
+            if not c.endswith((b"\n", b"\r")):
+                ctx.count("bytes_content_no_final_newline")
+        run_single(ctx, fw, cases + bcases)
 
         # ---- B: histories
         run_histories(ctx, fw, 400 if quick else 8000)
@@ -1343,6 +1938,9 @@ def correspondence(ctx):
         # ---- G: the file system refuses (unreadable hosts file; rename refused -> non-atomic fallback)
         run_refused(ctx, fw, 150 if quick else 3000)
 
+        # ---- H: update histories through the real firewall.main (names repeating, several helpers, arbitrary-bytes files)
+        run_main_sessions(ctx, fw, 400 if quick else 8000)
+
         # ---- E: outside the model
         run_outside_model(ctx, fw)
         ctx.notes.append("restore_etc_hosts does nothing when this instance never added a host (firewall.py:72): marked lines left behind "
@@ -1364,13 +1962,26 @@ def replay(ctx, rp):
     try:
         if r.get("kind") == "single":
             w = World(b(r["content_hex"]), 0, 0, 0o644, None, True)
+            snap0 = w.snapshot()
             with Patched(fw, w):
-                call_impl(fw, w, r["port"], r["map"], r.get("restore", False))
+                st, _ = call_impl(fw, w, r["port"], r["map"], r.get("restore", False))
             got = w.hosts_bytes()
+            same = w.snapshot() == snap0
             w.close()
             want = b(r["want_hex"])
-            print("got", got, "want", want)
+            print("status", st, "got", got, "want", want, "directory untouched:", same)
+            if r.get("undecodable"):
+                return not ((st.startswith("crash") and same) or (st == "done" and got == want))
             return got != want
+        if r.get("kind") == "main":
+            content = b(r["content_hex"])
+            ops = r["ops"]
+            recs, snap0, seen, ids, fstok = run_main_scenario(fw, content, r.get("link_ok", True), ops)
+            verdict = judge_main_scenario(content, ops, recs, snap0)
+            for op, (st, data, snap) in zip(ops, recs):
+                print(" ".join(str(x) for x in op), "->", st, "| hosts:", data)
+            print("verdict:", verdict)
+            return verdict is not None
         if r.get("kind") == "refused":
             import io
             content = b(r["content_hex"])
